@@ -1,5 +1,5 @@
 (* C17 — interactive sessions resume only via their live callback and never mix. *)
-From Verif Require Import Base Scope Types Prog Pop Token Authorize System Config Run Monitors Fresh FreshHandlers OneShot HistProps C17Proofs.
+From Verif Require Import Base Scope Types Prog Pop Token Authorize System Config Run Monitors Fresh FreshHandlers OneShot HistProps C17Proofs C02Proofs C02Handlers Isolation.
 Local Open Scope N_scope.
 
 (* At every moment (every reachable state of every history) a stored session is reachable through
@@ -41,3 +41,22 @@ Proof.
   destruct (fresh_all_histories w dyn ops) as [[_ U] _]. exact (U s1 s2 f H1 H2 E NZ).
 Qed.
 Print Assumptions session_indexes_unique.
+
+(* session isolation at the callback: whatever /authorize/{callback} sends - a navigation with a code,
+   implicit tokens or an error, or the next page - is made of the stored session the callback id indexes:
+   its redirect URI, its state; the code is the one minted by this very operation (or one that session
+   already carried); the page continues under the same callback id.  Together with
+   session_indexes_unique (an id indexes ONE session) and C04's code_grant_within_session (the grant
+   written at redemption carries the subject, client and granted scopes of the session the code indexed),
+   the values established in one session appear only in the artifacts of that session. *)
+Theorem callback_artifacts_from_own_session : forall w n now r st,
+  match snd (run_seq (continue_auth w n now r) st) with
+  | ONav _ u nv =>
+      exists s, find (fun s => ideq (a_cb s) (cb_id r)) (st_asess st) = Some s /\
+                u = p_redirect (a_params s) /\ n_state nv = p_state (a_params s) /\
+                (n_code nv = 0 \/ n_code nv = a_code s \/ n_code nv = mint n KCode)
+  | OPage cb => cb = cb_id r
+  | _ => True
+  end.
+Proof. exact callback_from_own_session. Qed.
+Print Assumptions callback_artifacts_from_own_session.
